@@ -20,11 +20,15 @@ from pyvc.world import Contract, LoopSpec
 from .core import CONTRACTS, contract
 
 
+PRO_ASSUMED = ('assumed: PRO(n) and PRO(PRO(n)) are the type of n wires named 1, a function of n alone, so PRO(a) @ PRO(b) == PRO(a + b) '
+               '(monoidal.PRO.__init__ multiplies a list by a symbolic integer, outside the engine)')
+
+
 def _function(ex, name):
     """a Function object with symbolic arities and an arbitrary box function"""
     n, m = z3.Int(name + '.n_in'), z3.Int(name + '.n_out')
     ex.assume(z3.And(n >= 0, m >= 0))
-    dom, cod = z3.Const(name + '.dom', T.TyS), z3.Const(name + '.cod', T.TyS)     # PRO(n), PRO(m): only lengths matter
+    dom, cod = T.pro_of(n), T.pro_of(m)     # PRO(n), PRO(m)
     ex.assume(z3.And(z3.Length(dom) == n, z3.Length(cod) == m))
     f = VPyFun(name, m)
     obj = VObject('cartesian.Function', {'dom': VTy(dom), 'cod': VTy(cod), '_dom': VTy(dom), '_cod': VTy(cod),
@@ -33,14 +37,37 @@ def _function(ex, name):
 
 
 def _make_function(interp, args, kwargs):
-    """call-site contract of Function(dom, cod, function): a record of the three fields (dom / cod as given)"""
+    """call-site contract of Function(dom, cod, function): a record of the three fields, dom and cod made PRO types
+    (verified against the body of __init__ by the contract below)"""
     dom, cod, fn = args
+    w = interp.world
+    dom, cod = w.construct(interp, 'rigid.PRO', [dom], {}), w.construct(interp, 'rigid.PRO', [cod], {})
     return VObject('cartesian.Function', {'dom': dom, 'cod': cod, '_dom': dom, '_cod': cod, 'function': fn, '_function': fn})
 
 
-_c = Contract('cartesian.Function.__init__', is_init=True, params=None)
+def _p_init(ex):
+    n, m = z3.Int('n_in'), z3.Int('n_out')
+    ex.assume(z3.And(n >= 0, m >= 0))
+    dom, cod = z3.Const('dom', T.TyS), z3.Const('cod', T.TyS)
+    ex.assume(z3.And(z3.Length(dom) == n, z3.Length(cod) == m))
+    f = VPyFun('f', m)
+    ex._c19i = (dom, cod, f)
+    return [VObject('cartesian.Function'), VTy(dom), VTy(cod), f], {}
+
+
+def _e_init(interp, args, kwargs, obj):
+    ex = interp.ex
+    dom, cod, f = ex._c19i
+    a = obj.attrs
+    ex.prove('C19:Function stores the function it is given', z3.BoolVal(a.get('_function') is f))
+    ex.prove('C19:Function.dom is PRO of the domain given', T.ty_eq(a['_dom'].t, T.pro_of(z3.Length(dom))))
+    ex.prove('C19:Function.cod is PRO of the codomain given', T.ty_eq(a['_cod'].t, T.pro_of(z3.Length(cod))))
+    ex.prove('C19:Function.dom has as many wires as given', T.ty_len(a['_dom'].t) == z3.Length(dom))
+    ex.prove('C19:Function.cod has as many wires as given', T.ty_len(a['_cod'].t) == z3.Length(cod))
+
+
+_c = contract('cartesian.Function.__init__', is_init=True, params=_p_init, ensures=_e_init, property_ids=('C19',))
 _c.make = _make_function
-CONTRACTS['cartesian.Function.__init__'] = _c
 
 
 def _call(interp, fn_obj, x):
@@ -110,6 +137,10 @@ def _p_then(ex):
     f, ff, n0, m0 = _function(ex, 'f')
     g, gf, n1, m1 = _function(ex, 'g')
     ex._c19 = (f, ff, n0, m0, g, gf, n1, m1)
+    # PRO(a) @ PRO(b) == PRO(a + b): part of the assumed model of PRO (types of wires all named 1)
+    ex.used.add(PRO_ASSUMED)
+    for a, b in ((n0, n1), (m0, m1)):
+        ex.assume(T.ty_concat(T.pro_of(a), T.pro_of(b)) == T.pro_of(a + b))
     return [f, g], {}
 
 
@@ -155,7 +186,7 @@ contract('cartesian.Function.tensor', params=_p_then, ensures=_e_tensor, propert
 def _p_id(ex):
     n = z3.Int('n')
     ex.assume(n >= 0)
-    dom = z3.Const('dom', T.TyS)
+    dom = T.pro_of(n)
     ex.assume(z3.Length(dom) == n)
     ex._c19 = (n, dom)
     return [VTy(dom)], {}
